@@ -102,6 +102,8 @@ def rules(ctx):
     ctx.rule('R12.3', "acceptance condition dE <= 0 || (T > 0 && u < exp(-dE/T)); kernels agree", floor=5)
     ctx.rule('R12.4', "quso: flip paired with cached-dE update, dE read from the cache; puso: dE recomputed in the step", floor=4)
     ctx.rule('R12.5', "visited index is in_order ? j : rand_int(rng, len_state)", floor=2)
+    ctx.rule('R12.6', "user-specified temperatures are never altered: only an automatically computed (0, 0) range is "
+                      "replaced, an explicit schedule is used as given", floor=2)
 
     # ---------------------------------------------------------------- R12.1
     reach = set()
@@ -224,6 +226,8 @@ def rules(ctx):
                                  "bound to its namesake" if okp else
                                  "`%s` is passed in the position of parameter `%s` of %s" % (a, cps[pos], callee.name))
 
+    schedule_rules(ctx, 'R12.6')
+
     # ---------------------------------------------------------------- R12.3 / R12.4 / R12.5
     norms = {}
     for sname in ('single_anneal_quso', 'single_anneal_puso'):
@@ -244,6 +248,13 @@ def rules(ctx):
                 ctx.inst('R12.3', (f.unit, sname), 'exp(...) guarded', okg,
                          "Boltzmann factor evaluated only under T > 0" if okg else
                          "exp(-dE/T) is evaluated under guards %s, not under T > 0: division by a zero temperature" % c['guards'])
+        # every visit reaches the acceptance test: it is not nested under another condition and the sweep
+        # loops contain no continue / break / goto
+        ok = not acc['guards'] and not f.jumps
+        ctx.inst('R12.3', (f.unit, sname), 'every visited spin is tested', ok,
+                 "the acceptance test is reached on every iteration of the sweep" if ok else
+                 "the acceptance test is skipped for some spins (nested under %s / %d jump statements in the sweep): a "
+                 "spin whose dE <= 0 is not flipped, which is not the Metropolis rule" % (acc['guards'], len(f.jumps)))
         # flip inside the accepted branch, at depth of two loops (sweeps x spins)
         ok = len(acc['loops']) == 2
         ctx.inst('R12.3', (f.unit, sname), 'acceptance inside the sweep loops', ok,
@@ -301,3 +312,46 @@ def rules(ctx):
         a, b = norms.get('single_anneal_quso'), norms.get('single_anneal_puso')
         ctx.inst('R12.3', ('qubovert/sim/src', ''), 'kernels agree on the acceptance rule', a == b and a is not None,
                  "both kernels: %s" % a if a == b else "quso accepts on `%s`, puso on `%s`" % (a, b))
+
+
+def schedule_rules(ctx, rid):
+    P = ctx.prog
+    from ..cfg import cfg_of
+    from ..astutil import compare_atoms
+    fn = P.func('_anneal._create_spin_schedule')
+    g = cfg_of(fn.node)
+    tr = 'temperature_range'
+    # explicit schedule returned unchanged
+    rets = [n for n in g.stmts() if isinstance(n, ast.Return)]
+    first = [r for r in rets if src(r.value) in ('list(schedule)', 'schedule')]
+    okx = False
+    for r in first:
+        facts = []
+        for t, pol, o in g.edge_dominators(r):
+            facts += compare_atoms(t, pol)
+        okx = ('falsy', 'isinstance(schedule, str)') in facts
+    ctx.inst(rid, fn, first[0] if first else 'explicit schedule', okx,
+             "an explicit schedule is returned as given" if okx else
+             "an explicit (non-string) schedule is not returned unchanged as list(schedule)")
+    # any assignment overriding T0 / Tf after they were read must be under `temperature_range is None`
+    t_names = None
+    for n in g.stmts():
+        if isinstance(n, ast.Assign) and isinstance(n.targets[0], ast.Tuple) and tr in src(n.value) and 'anneal_temperature_range' in src(n.value):
+            t_names = [src(e) for e in n.targets[0].elts]
+            okv = isinstance(n.value, ast.BoolOp) and isinstance(n.value.op, ast.Or) and src(n.value.values[0]) == tr
+            ctx.inst(rid, fn, n, okv, "a given temperature range takes precedence over the computed one" if okv else
+                     "the temperatures are not `temperature_range or anneal_temperature_range(...)`")
+    if not t_names:
+        ctx.inst(rid, fn, 'T0, Tf', False, "temperature pair not found")
+        return
+    for n in g.stmts():
+        if isinstance(n, ast.Assign) and any(src(t) in t_names for tt in n.targets for t in ([tt] if not isinstance(tt, ast.Tuple) else tt.elts)) \
+                and 'anneal_temperature_range' not in src(n.value):
+            facts = []
+            for t, pol, o in g.edge_dominators(n):
+                facts += compare_atoms(t, pol)
+            ok = (tr, 'is', 'None') in facts
+            ctx.inst(rid, fn, n, ok,
+                     "temperatures are replaced only when they were computed automatically" if ok else
+                     "`%s` replaces the temperatures also when the user supplied temperature_range: a requested "
+                     "zero-temperature run is annealed at another temperature" % src(n))
